@@ -25,6 +25,9 @@ AREAS = {
     # the SIMD fast path of the data state and its dispatcher (not part of the tokenizer tables)
     "html_tokenizer_simd": ("html5ever", ["tokenizer"], (), (), ("data_state_simd_fast_path", "data_state_sse2_fast_path", "data_state_neon_fast_path", "is_supported_simd_feature_detected")),
 }
+# differences that are structural facts, not "the text of a function changed": a new method in a trait impl can override a
+# default method or be entered implicitly (Drop) without any caller changing; a public function that disappeared is an API fact
+STRUCTURAL = ("function-new", "function-missing")
 _cache = {}
 
 
@@ -78,7 +81,7 @@ def nf_rule(ctx, rule, area, only=None, floor=None):
     n = nf.compare_area(
         ref, cur,
         lambda key, msg: ctx.ob(rule, "nf/%s/%s" % (area, key), True, msg),
-        lambda key, kind, msg: ctx.ob(rule, "nf/%s/%s/%s" % (area, key, kind), False, msg, "%s %s" % (AREAS[area][0], key)),
+        lambda key, kind, msg: (ctx.ob if kind in STRUCTURAL else ctx.advise)(rule, "nf/%s/%s/%s" % (area, key, kind), *((False,) if kind in STRUCTURAL else ()), msg, "%s %s" % (AREAS[area][0], key)),
         crate_summaries(ctx, AREAS[area][0]), full_ref, full_cur)
     if floor is not None:
         ctx.floor(rule, "functions/" + area, len(cur), floor)
